@@ -4,6 +4,8 @@
 -/
 import Proofs.Subset
 import Proofs.EndToEnd
+import Proofs.EndToEndGrid
+import PydapModel.Handler
 namespace Pydap
 open Pydap
 
@@ -82,5 +84,46 @@ theorem basic_cases (idx : List Idx) (h1 : AtMostOneEll idx) :
     refine Or.inr ⟨(splitEll idx).1, b, ?_, he, hn, h1 b h, ?_⟩
     · rw [← h]
     · simp only [explicitAxes, h]
+
+/-! ### the server's guard `check_hyperslab` (fix 153ff3f; `Handler.validSl`, C15) accepts every request of the domain -/
+
+/-- a printable request slice with a non-empty selection passes the server's `check_hyperslab` -/
+theorem validSl_of_sel_ne_nil (N : Nat) (r : PSlice) (hn : NormSl r) (hne : sel N r ≠ []) :
+    Handler.validSl N r = true := by
+  obtain ⟨a, b, k, rfl, ha, hb, hk⟩ := hn
+  simp only [Handler.validSl, Option.getD_some, decide_eq_true_eq]
+  have hlen : (sel N ⟨some a, some b, some k⟩).length ≠ 0 := by
+    intro h; exact hne (List.length_eq_zero_iff.mp h)
+  simp only [sel, npBound, Option.getD_some, List.length_range'] at hlen
+  have ha' : ¬ a < 0 := by omega
+  have hb' : ¬ b < 0 := by omega
+  simp only [ha', hb', if_false] at hlen
+  have hk0 : 0 < k.toNat := by omega
+  have : (min a ↑N).toNat < (min b ↑N).toNat := by
+    by_contra hc
+    have h0 : (min b ↑N).toNat - (min a ↑N).toNat = 0 := by omega
+    apply hlen
+    rw [h0]
+    apply Nat.div_eq_of_lt
+    omega
+  refine ⟨ha, Or.inl ?_, ?_, hk⟩ <;> omega
+
+theorem request_accepted (N : Nat) (p : PSlice) (hp : NonNegSl p) (e : Idx)
+    (he : ValidIdx (sel N p).length e) : Handler.validSl N (reqAxis N p e) = true := by
+  obtain ⟨hn, law⟩ := axis_law N p hp e he
+  apply validSl_of_sel_ne_nil N _ hn
+  intro h0
+  have : (axisSel (sel N p).length e).map (fun j => (sel N p)[j]?) = [] := by
+    have := law; rw [h0] at this; simpa [axisSpec] using this.symm
+  exact axisSel_ne_nil _ e he (by simpa using this)
+
+/-- every axis of the request passes `check_hyperslab` on the source axis it addresses, and the request has one
+    slice per axis (never more indices than dimensions) -/
+theorem request_list_accepted (shape : List Nat) (P : List PSlice) (E : List Idx) (hv : ValidList shape P E) :
+    ∀ (j : Nat) (hj : j < shape.length), ∃ r, (reqList shape P E)[j]? = some r ∧ Handler.validSl shape[j] r = true := by
+  intro j hj
+  have hlen := validList_length hv
+  have hg := E2E.validList_getElem shape P E hv j hj (by rw [hlen.1]; exact hj) (by rw [hlen.2]; exact hj)
+  exact ⟨_, reqList_getElem shape P E hv j hj, request_accepted _ _ hg.1 _ hg.2⟩
 
 end Pydap
